@@ -18,7 +18,11 @@ FIXED = [
  ("C15", "disk_used/mismatch", "fix: disk_used counts", "disk_used omits an index file that exists while its index is in memory"),
  ("C12", "sync/explicit-fsyncdata-noop", "fix: Storage::fsyncdata always", "explicit fsyncdata() issues no sync below the dirty-byte limit"),
 ]
-OPEN = []
+OPEN = [
+ ("C16", "validate_blob/accepts-flip/blob-header-version", "validate_blob ignores the blob header's version field (validate_without_version): any bit flip in bytes 8..12 of a blob is accepted"),
+ ("C16", "validate_blob/accepts-flip/blob-header-flags", "no check covers the blob header's flags field: any bit flip in bytes 12..20 of a blob is accepted by validate_blob (and by the storage)"),
+ ("C16", "validate_blob/accepts-flip/meta", "record metadata bytes are covered by no checksum: a flipped byte inside a record's meta section is accepted whenever bincode still decodes the map"),
+]
 out = {"findings": []}
 for (prop, sig, prefix, what) in FIXED:
     c = commit(prefix)
